@@ -39,6 +39,8 @@ CONSTANTS
     SigRuns,     \* runs whose caller passes a signalsToStep channel and sends one signal
     BadSigRuns,  \* subset of SigRuns whose signal the server's handler rejects
     EmitRuns,    \* runs whose step emits one signal to the client before finishing (non-SDK servers do)
+    NoStepRuns,  \* runs whose Execute names no step (blank step ID): the server answers with a step-fatal error that
+                 \* carries NO run ID, which the client hands to every pending call
     WithClose,   \* BOOLEAN: Close() is called at an arbitrary moment
     Serial,      \* BOOLEAN: callers run strictly one after the other (back to back)
     MergedExit,  \* BOOLEAN: see above
@@ -47,7 +49,7 @@ CONSTANTS
                  \* dropped with it); TRUE = repaired client, one decoder whose buffer survives the loop
     NoRun        \* the empty run ID
 
-ASSUME Cap \in Nat /\ Frag \in BOOLEAN /\ SigRuns \subseteq Runs /\ BadSigRuns \subseteq Runs
+ASSUME Cap \in Nat /\ Frag \in BOOLEAN /\ SigRuns \subseteq Runs /\ BadSigRuns \subseteq Runs /\ NoStepRuns \subseteq Runs
 
 VARIABLES
     \* ---- client
@@ -208,7 +210,7 @@ SendLock(r) ==
 
 SendWrite(r) ==
     /\ cpc[r] = "write" /\ ~stdinClosed /\ CanWrite(c2s)
-    /\ \E f \in Frags(Msg("ws", r, "")) : c2s' = c2s \o f
+    /\ \E f \in Frags(IF r \in NoStepRuns THEN Msg("wsbad", NoRun, "") ELSE Msg("ws", r, "")) : c2s' = c2s \o f
     /\ cpc' = [cpc EXCEPT ![r] = "writing"]
     /\ UNCHANGED <<entries, woken, sigch, mu, rl, loop, res, rets, wpc, done, clpc, wg, gotsig,
                    s2c, stdinClosed, outClosed, svars>>
